@@ -510,6 +510,149 @@ def inline_helpers(stmts, helpers, fn):
     return map_stmts(stmts, f)
 
 
+# ---- control-flow normalisation (semantics preserving; the proofs are about the canonical form) ----------------------
+NEG = {"<": ">=", ">=": "<", ">": "<=", "<=": ">", "==": "!=", "!=": "=="}
+
+
+def nnf(e):
+    """negation normal form of a condition: `!(a || b)` -> `!a && !b`, `!(a && b)` -> `!a || !b` (the short-circuit
+    order is kept), `!(x < y)` -> `x >= y`, `!(x == y)` -> `x != y`, `!!a` -> `a`"""
+    if e[0] == "not":
+        a = e[1]
+        if a[0] == "not":
+            return nnf(a[1])
+        if a[0] == "bin" and a[1] in ("||", "&&"):
+            return ("bin", "&&" if a[1] == "||" else "||", nnf(("not", a[2])), nnf(("not", a[3])))
+        if a[0] == "bin" and a[1] in NEG and a[2][0] != "scall" and a[3][0] != "scall":
+            return ("bin", NEG[a[1]], a[2], a[3])
+        return e
+    return e
+
+
+def has_break(stmts):
+    """a `break` that would leave the enclosing loop (breaks of nested loops do not count)"""
+    for s in stmts:
+        k = s[0]
+        if k == "break":
+            return True
+        if k == "if" and (has_break(s[2]) or has_break(s[3])):
+            return True
+        if k == "block" and has_break(s[1]):
+            return True
+    return False
+
+
+def unblock(stmts):
+    return unblock(stmts[0][1]) if len(stmts) == 1 and stmts[0][0] == "block" else stmts
+
+
+def rotate_loops(stmts):
+    """`for(init; ; step) if(A) { B; break; }`  ->  `for(init; !A; step) ;  B`   (B without another break)"""
+    out = []
+    for s in stmts:
+        k = s[0]
+        if k == "if":
+            out.append(("if", s[1], rotate_loops(s[2]), rotate_loops(s[3])))
+        elif k == "block":
+            out.append(("block", rotate_loops(s[1])))
+        elif k == "loop":
+            init, c, step, body = s[1], s[2], s[3], unblock(rotate_loops(s[4]))
+            if c is None and len(body) == 1 and body[0][0] == "if" and not body[0][3]:
+                th = unblock(body[0][2])
+                if th and th[-1] == ("break",) and not has_break(th[:-1]):
+                    out.append(("loop", init, nnf(("not", body[0][1])), step, []))
+                    out += th[:-1]
+                    continue
+            out.append(("loop", init, c, step, body))
+        else:
+            out.append(s)
+    return out
+
+
+def uses_var(e, v):
+    found = []
+    map_expr(e, lambda x: (found.append(1), x)[1] if x == ("var", v) else x)
+    return bool(found)
+
+
+def stmt_mentions(s, v):
+    k = s[0]
+    if k == "decl":
+        return s[2] == v or (s[3] is not None and uses_var(s[3], v)) or any(uses_var(a, v) for a in (s[4] or []))
+    if k == "assign":
+        return s[1] == v or uses_var(s[2], v)
+    if k == "mcall":
+        return s[1] == v or any(uses_var(a, v) for a in s[3])
+    if k == "if":
+        return uses_var(s[1], v) or any(stmt_mentions(x, v) for x in s[2] + s[3])
+    if k == "loop":
+        return (s[2] is not None and uses_var(s[2], v)) or any(stmt_mentions(x, v) for x in s[1] + s[3] + s[4])
+    if k == "block":
+        return any(stmt_mentions(x, v) for x in s[1])
+    if k == "return":
+        return uses_var(s[1], v)
+    return False
+
+
+def tail_assign_to_goto(stmts, v, label):
+    """stmts with every `v = false;` in TAIL position replaced by `goto label;`; None when v is mentioned anywhere else"""
+    if not stmts:
+        return []
+    for s in stmts[:-1]:
+        if stmt_mentions(s, v):
+            return None
+    last = stmts[-1]
+    if last == ("assign", v, ("bool", "false")):
+        return stmts[:-1] + [("goto", label)]
+    if last[0] == "if" and not uses_var(last[1], v):
+        a = tail_assign_to_goto(last[2], v, label)
+        b = tail_assign_to_goto(last[3], v, label)
+        if a is None or b is None:
+            return None
+        return stmts[:-1] + [("if", last[1], a, b)]
+    if last[0] == "block":
+        a = tail_assign_to_goto(last[1], v, label)
+        return None if a is None else stmts[:-1] + [("block", a)]
+    return None if stmt_mentions(last, v) else stmts
+
+
+def eliminate_flags(stmts, counter):
+    """`bool f = true; R…; if(f) { X }  rest`  with f only assigned `false` in tail positions of R (outside loops)
+        ->  `R[f = false := goto L]…; { X }  L:  rest`"""
+    out = []
+    for s in stmts:
+        k = s[0]
+        if k == "if":
+            out.append(("if", s[1], eliminate_flags(s[2], counter), eliminate_flags(s[3], counter)))
+        elif k == "block":
+            out.append(("block", eliminate_flags(s[1], counter)))
+        elif k == "loop":
+            out.append(("loop", s[1], s[2], s[3], eliminate_flags(s[4], counter)))
+        else:
+            out.append(s)
+    i = 0
+    while i < len(out):
+        s = out[i]
+        if s[0] == "decl" and s[1] == "bool" and s[3] == ("bool", "true"):
+            v = s[2]
+            j = next((j for j in range(i + 1, len(out)) if out[j][0] == "if" and out[j][1] == ("var", v) and not out[j][3]), None)
+            if j is not None and not any(stmt_mentions(x, v) for x in out[j][2]) and not any(stmt_mentions(x, v) for x in out[j + 1:]):
+                counter[0] += 1
+                label = f"flag_{counter[0]}"
+                region = tail_assign_to_goto(out[i + 1:j], v, label)
+                if region is not None:
+                    out = out[:i] + region + [("block", out[j][2]), ("label", label)] + out[j + 1:]
+                    continue
+        i += 1
+    return out
+
+
+def canonical(stmts):
+    stmts = map_stmts(stmts, nnf)
+    stmts = rotate_loops(stmts)
+    return eliminate_flags(stmts, [0])
+
+
 # ---- renaming of shadowing declarations ------------------------------------------------------------------------------
 def rename(stmts, scopes, used, fn):
     """returns stmts with every variable replaced by its unique name"""
@@ -1221,7 +1364,7 @@ def translate_function(src, name, ret_rx, ret, known):
     stmts = p.stmts()
     if p.peek() is not None:
         raise Refuse(f"{fn}: trailing tokens")
-    stmts = inline_helpers(stmts, find_helpers(src), fn)
+    stmts = canonical(inline_helpers(stmts, find_helpers(src), fn))
     used = {n for n, _ in params} | {"ret"}
     stmts = rename(stmts, [dict((n, n) for n, _ in params), {}], used, fn)
     T = Types(fn, params)
